@@ -111,8 +111,8 @@ PROPS["C12"] = {
 }
 
 PROPS["C19"] = {
-    "level_text": "Proof of the timing and precedence building blocks of master scheduling: a periodic poll becomes due exactly one period after its previous run completed (or at once when demanded), the poll map returns a due poll or the EARLIEST deadline to sleep until, the keep-alive is due only after the configured silence since the last link activity, and the per-association choice gives automatic tasks precedence over polls over keep-alive.",
-    "level_note": "PARTIAL: FIFO order of user requests (VecDeque<Task>), turn-taking between associations (AssociationMap), 'at most one request outstanding' and non-starvation are async/Task-valued code outside CBMC's reach and are NOT covered. Poll map bounded to two polls.",
+    "level_text": "Proof of the timing and precedence building blocks of master scheduling: a periodic poll becomes due exactly one period after its previous run completed (or at once when demanded), the poll map returns a due poll or the EARLIEST deadline to sleep until, and the keep-alive deadline is re-armed to (last link activity + configured silence).",
+    "level_note": "PARTIAL (timing building blocks only): the per-association choice get_next_task / next_link_status_task (auto tasks before polls before keep-alive; due iff deadline reached) builds Task values and does not finish in CBMC even with all callees stubbed; FIFO order of user requests (VecDeque<Task>), turn-taking between associations (AssociationMap), 'at most one request outstanding' and non-starvation are async/Task-valued code outside CBMC's reach and are NOT covered. Poll map bounded to two polls.",
     "not_covered": ["master::association::Association::priority_task / AssociationMap::next_task (Task values, BTreeMap of associations)", "master::task run loops (async): one request outstanding, sleeping"],
     "assumptions": ["tokio::time::Instant::now replaced by a harness clock"],
 }
